@@ -811,7 +811,7 @@ int main(int argc, char **argv)
     for (int kind = K_TKFULL; kind <= K_TKRES; kind++) {
         mx_entropy_seed(vf_seed * 31 + ci++); gen_schedules(cfg_get(MX_DTLS12, 0x00ae, 1500, kind), T ? 10 : 6, T ? 600 : 12, 1, &g);
         mx_entropy_seed(vf_seed * 31 + ci++); gen_schedules(cfg_get(MX_DTLS10, 0x002f, 1500, kind), T ? 8 : 4, T ? 300 : 6, 1, &g);
-        if (T) { mx_entropy_seed(vf_seed * 31 + ci++); gen_schedules(cfg_get(MX_DTLS12, 0xc02f, 256, kind), 6, 200, 1, &g); }
+        if (T) { mx_entropy_seed(vf_seed * 31 + ci++); gen_schedules(cfg_get(MX_DTLS12, 0xc02f, 400, kind), 6, 200, 1, &g);   /* certificate suites need PMTU >= 400: only Certificate is fragmented (PS_MIN_PMTU comment in dtls.c) */ }
     }
     batch_flush();
 
